@@ -86,6 +86,7 @@ struct SampleRec {
   char text[256];
 };
 struct Slot {
+  std::atomic<uint64_t> alt_id;  // engine-defined replay id of the case in flight (0: use idx)
   std::atomic<uint64_t> idx;
   std::atomic<uint64_t> chunk_end;
   std::atomic<int> active;
@@ -128,6 +129,14 @@ struct Ctx {
   uint64_t idx = 0;
   bool want_sample = false;
   bool replay = false;
+  bool quiet = false;  // replaying an already-checked prefix: drop violations without allocating
+  int worker = -1;
+  uint64_t report_id = 0;  // if non-zero, violations are recorded under this id instead of idx
+  // publish an engine-defined replay id for crash attribution (history explorers)
+  void publish(uint64_t id) {
+    report_id = id;
+    if (sh && worker >= 0) sh->slot[worker].alt_id = id;
+  }
   // local accumulators, flushed per chunk
   uint64_t evals = 0, nontrivial = 0, skipped = 0;
   uint64_t counters[kMaxCounters] = {0};
@@ -158,6 +167,7 @@ struct Ctx {
     va_start(ap, fmt);
     vsnprintf(buf, sizeof buf, fmt, ap);
     va_end(ap);
+    if (quiet) return;
     if (replay) {
       replay_report += std::string("VIOLATION-CASE kind=") + kind + " class=" + cls + " detail=" + buf + "\n";
       return;
@@ -184,7 +194,7 @@ struct Ctx {
     if (k >= kMaxViol) return;
     ViolRec& v = sh->viol[k];
     snprintf(v.family, sizeof v.family, "%s", fam->name.c_str());
-    v.idx = idx;
+    v.idx = report_id ? report_id : idx;
     snprintf(v.kind, sizeof v.kind, "%s", kind);
     snprintf(v.cls, sizeof v.cls, "%s", cls.c_str());
     snprintf(v.detail, sizeof v.detail, "%s", buf);
@@ -302,6 +312,7 @@ class Runner {
     sh_->stop = 0;
     for (auto& s : sh_->slot) {
       s.active = 0;
+      s.alt_id = 0;
       s.idx = 0;
       s.chunk_end = 0;
     }
@@ -328,10 +339,11 @@ class Runner {
       }
       // crash: attribute to the published case
       uint64_t idx = sh_->slot[w].idx.load();
+      uint64_t alt = sh_->slot[w].alt_id.load();
       uint64_t cend = sh_->slot[w].chunk_end.load();
       bool active = sh_->slot[w].active.load() != 0;
       fr.crashes++;
-      record_crash(fam, active ? idx : (uint64_t)-1, st, fr.crashes <= 4);
+      record_crash(fam, active ? (alt ? alt : idx) : (uint64_t)-1, st, fr.crashes <= 4);
       if (fr.crashes > 40) {
         sh_->stop = 1;
         fr.exhaustive = false;
@@ -458,6 +470,7 @@ class Runner {
     Ctx ctx;
     ctx.sh = sh_;
     ctx.fam = &fam;
+    ctx.worker = w;
     Slot& slot = sh_->slot[w];
     auto flush = [&]() {
       sh_->evals.fetch_add(ctx.evals);
@@ -472,8 +485,10 @@ class Runner {
       slot.chunk_end = e;
       for (uint64_t i = b; i < e; i++) {
         slot.idx = i;
+        slot.alt_id = 0;
         slot.active = 1;
         ctx.idx = i;
+        ctx.report_id = 0;
         ctx.want_sample = is_sample_idx(i, fam.count);
         check(fam, i, ctx);
         // counters are flushed after every case so that a crash on the next
